@@ -27,7 +27,8 @@ import nvwp
 
 
 class Gen:
-    def __init__(self, decls, length=None, hyps=()):
+    def __init__(self, decls, length=None, hyps=(), tag=''):
+        self.tag = tag           # owner (function / kernel) named in the lemma VCs
         self.hyps = list(hyps)   # hypotheses on scalar parameters (parameter domains) under which the summand lemmas are proved and used
         self.length = length     # term of the common length of the summed arrays (for: positive summands, non-empty => sum > 0)
         self.sum_pos = {}
@@ -77,14 +78,14 @@ class Gen:
     def prove_nonneg(self, phi, nm):
         """lemma VC: the summand is >= 0 for all values of its constants (decided now so that the fact may be used; the VC
         itself is emitted with the run)"""
-        vc = self.vc(f'lemma/summand of {nm} is non-negative', self.hyps, ('>=', phi, '0.0'), about=f'summand {sx.show(phi)[:200]}',
+        vc = self.vc(f'{self.tag or "lemma"}/lemma: summand of {nm} is non-negative', self.hyps, ('>=', phi, '0.0'), about=f'summand {sx.show(phi)[:200]}',
                      timeout=3, use_sum_facts=False)
         r = vc.verify()
         if r['status'] == 'SUCCESS':
             vc.timeout = 20
             self.lemmas.append(vc)
             if self.length is not None:
-                vs = self.vc(f'lemma/summand of {nm} is positive', self.hyps, ('>', phi, '0.0'), about=f'summand {sx.show(phi)[:200]}',
+                vs = self.vc(f'{self.tag or "lemma"}/lemma: summand of {nm} is positive', self.hyps, ('>', phi, '0.0'), about=f'summand {sx.show(phi)[:200]}',
                              timeout=3, use_sum_facts=False)
                 if vs.verify()['status'] == 'SUCCESS':
                     vs.timeout = 20
